@@ -46,10 +46,14 @@ func genC07(t *rapid.T) C07Case {
 	c.BigRG = rapid.IntRange(0, 3).Draw(t, "bigRG") == 0
 	c.ZeroRG = !c.BigRG && rapid.IntRange(0, 3).Draw(t, "zeroRG") == 0
 	m := rapid.IntRange(1, h.Scale(20, 30)).Draw(t, "nReq")
+	long := rapid.IntRange(0, 19).Draw(t, "long") == 0
+	if long {
+		m = h.Scale(300, 3000) // a long life of a few accounts: request numbers, totals and answer counts far beyond the short sequences
+	}
 	for i := 0; i < m; i++ {
 		r := CCR{Acct: rapid.SampledFrom([]int{0, 0, 0, 1, 1, 2, 3, -1, -2, -4, -5}).Draw(t, "acct")}
-		if r.Acct >= n {
-			r.Acct = 0
+		if r.Acct >= n || (long && r.Acct < 0) {
+			r.Acct = 0 // (requests for unknown accounts cost a wait each: the long sequences do without)
 		}
 		r.Action = rapid.SampledFrom([]int{0, 0, 0, 0, 1, 1, 2, 3}).Draw(t, "action")
 		r.Type = rapid.SampledFrom([]int{1, 2, 2, 2, 3, 3, 4}).Draw(t, "type")
@@ -78,7 +82,7 @@ func genC07(t *rapid.T) C07Case {
 			r.Used = &u
 		}
 		r.IdType = 1
-		if rapid.IntRange(0, 7).Draw(t, "otherIdType") == 0 {
+		if !long && rapid.IntRange(0, 7).Draw(t, "otherIdType") == 0 {
 			r.IdType = rapid.SampledFrom([]int{0, 2, 3, 4}).Draw(t, "idType")
 		}
 		c.Reqs = append(c.Reqs, r)
@@ -120,6 +124,9 @@ func judgeC07(c C07Case) *h.Verdict {
 		env.SetAccount64(a.supi, a.rg, b, "1")
 		accts = append(accts, a)
 		model[i] = b
+	}
+	if len(c.Reqs) >= 300 {
+		v.Label("sequence>=300-requests")
 	}
 	changes := map[int]int{}
 	sawEq, sawGt, refundAfterExhaust := false, false, false
